@@ -203,6 +203,14 @@ def check(chk):
         chk.ob("DEAD-4", "the shutdown flush happens whenever data is dirty: a busy file manager is waited for, not a reason to skip it", not extra and not skip_if_busy,
                t.where(c), detail="guards %s; busy wait loops after the main loop: %d" % (sorted(gs - loop_g), len(busy_wait)), construct=t.ident,
                text="shutdown flush conditional")
+    # every way out of the writer thread goes through the shutdown flush: no return / break-out before the dirty test after the loop
+    # (a stop request that arrives during the start-up delay or the rate-limit sleep still flushes what was saved meanwhile)
+    ft = [b for b in cfg.nodes if b.kind in ("test", "branch") and b.lineno is not None and b.lineno > loop.end_lineno and "self._dirty.is_set()" in src(b.ast)]
+    rets_ = [n for n in cfg.nodes if n.kind == "stmt" and isinstance(n.ast, ast.Return) and n.lineno < (ft[0].lineno if ft else 10 ** 9)]
+    w_ = cfg.path_avoiding(cfg.entry.id, [cfg.exit.id], [b.id for b in ft], ignore_exc=True) if ft else [cfg.entry.id]
+    chk.ob("DEAD-4", "every normal way out of the writer thread passes the shutdown flush test", bool(ft) and w_ is None and not rets_, t.where(rets_[0].ast) if rets_ else t.where(),
+           path=cfg.fmt_path(w_, DM) if w_ and ft else None, construct=t.ident, text="writer exit bypasses the shutdown flush")
+
     sa = repo.func(DM, "DataManager.save_all")
     calls = [call_attr(c) for c in sa.calls()]
     st_ = [x for x in walk_local(sa.node) if isinstance(x, ast.Assign) and src(x.targets[0]) == "self.data"]
@@ -397,6 +405,8 @@ def battery():
         M("configure_machine_var deadline from the loop clock", MV, "timeout = expire_secs + self.machine.clock.get_datetime().timestamp() if expire_secs else None", "timeout = expire_secs + self.machine.clock.get_time() if expire_secs else None", "FLOW-6"),
         M("writer failure handler can raise", DM, "                self.info_log(\"ERROR writing file %s: %s\", self.filename, e)", "                self.ignorable_runtime_exception(\"ERROR writing file {}: {}\".format(self.filename, e))", "DOM-30"),
         M("loaded sets come back as lists", YI, "        if isinstance(data, list):\n            return [YamlInterface.to_plain_dict(item) for item in data]", "        if isinstance(data, (list, tuple, set)):\n            return [YamlInterface.to_plain_dict(item) for item in data]", "TABLE-6"),
+        M("stop during the start-up delay skips the flush", DM, "        time.sleep(self.min_wait_secs)\n        while not self.machine.thread_stopper.is_set():", "        if self.machine.thread_stopper.wait(self.min_wait_secs):\n            return\n        while not self.machine.thread_stopper.is_set():", "DEAD-4"),
+        M("twin: interruptible waits without an early return", DM, "        time.sleep(self.min_wait_secs)\n        while not self.machine.thread_stopper.is_set():", "        self.machine.thread_stopper.wait(self.min_wait_secs)\n        while not self.machine.thread_stopper.is_set():", None),
     ]
 
 
